@@ -83,14 +83,30 @@ def fam_callraise(maxops):
 RANDOM_OPTS = {
     'ncomp': 2, 'shapes': ['plain', 'class'], 'nhandlers': (3, 8), 'prios': [-1, 0, 0, 1],
     'kinds': ['named', 'named', 'named', 'catchall'], 'nnames': 4,
-    'script_ops': ['ret', 'fire', 'fire', 'fire', 'raise', 'stop', 'cancel', 'yield'], 'flags': [0, 0, 4, 4, 5], 'maxfire': 2,
+    'script_ops': ['ret', 'fire', 'fire', 'fire', 'raise', 'stop', 'cancel', 'yield', 'yield', 'exit'], 'flags': [0, 0, 4, 4, 5], 'maxfire': 2,
     'maxops_script': 5, 'targets': [None, '*'], 'p_script': 0.9,
     'hist_ops': ['fire', 'fire', 'flush', 'tick', 'cancel'], 'histlen': (2, 6), 'ext_names': 2, 'p_attach': 1.0,
     'p_feedback_ch': 0.3,
 }
 
 
+def exit_cases():
+    """an event of a tracked closure has a generator handler and, after it, a handler that leaves with SystemExit or
+    KeyboardInterrupt (on a manager that is stepped by hand these do not stop anything): the closure still drains and
+    completes"""
+    for how, pgen, flags in [(h, p, f) for h in (['exit', None], ['exit', 3], ['kbint'], ['raise']) for p in (1, -1) for f in (4, 5)]:
+        prog = {'comps': {'1': {'chan': 'a'}},
+                'handlers': {
+                    '1': {'comp': 1, 'names': ['x0'], 'chan': None, 'prio': 0, 'script': {'x0': [['fire', {'name': 'x1', 'prio': 0, 'flags': 0, 'ch': None}]]}},
+                    '2': {'comp': 1, 'names': ['x1'], 'chan': None, 'prio': pgen, 'script': {'x1': [['yield', None], ['fire', {'name': 'x2', 'prio': 0, 'flags': 0, 'ch': None}], ['ret', 4]]}},
+                    '3': {'comp': 1, 'names': ['x1'], 'chan': None, 'prio': 0, 'script': {'x1': [how]}},
+                    '4': {'comp': 1, 'names': ['x2'], 'chan': None, 'prio': 0, 'script': {'x2': [['ret', 2]]}}},
+                'dyn': []}
+        yield prog, [['fire', 1, {'name': 'x0', 'prio': 0, 'flags': flags, 'ch': None}]] + [['tick', 1]] * 8
+
+
 def gen_random(rnd, quick):
+    yield from exit_cases()
     for i in range(400 if quick else 8000):
         prog = kernelgen.gen_program(rnd, RANDOM_OPTS)
         yield prog, kernelgen.gen_history(rnd, RANDOM_OPTS, prog)
